@@ -33,7 +33,7 @@ def translate_time(c):
     """HH:MM:SS;FF (drop-frame label: wall clock) or HH:MM:SS:FF (non-drop: 1001/1000 slower), 30
     frames per timecode second, minus the offset, floored at zero"""
     drop = c.pick("drop", [True, False])
-    fw = c.pick("frame_digits", [1, 2])
+    fw = c.pick("frame_digits", [1, 2, 3, 4, 5])        # (get_time adds the words sent so far to the frame field: it outgrows two digits)
     H, M, S, F = c.digits("H", n=2), c.digits("M", n=2), c.digits("S", n=2), c.digits("F", n=fw)
     offset = c.int("offset_us", 0, 10 ** 11)
     stamp = H + ":" + M + ":" + S + (";" if drop else ":") + F
